@@ -232,6 +232,9 @@ func ruleK10All(r *Report, p *Program) {
 					for _, comp := range []*Term{h, m} {
 						visitTerm(comp, map[*Term]bool{}, func(x *Term) {
 							if (x.Op == "index" || x.Op == "lookup") && x.Typ != nil && isIntType(x.Typ) && len(x.Args) == 2 && (isStringType(x.Args[0].Typ) || isByteSlice(x.Args[0].Typ)) {
+								if packedDigits(pa, comp, x) {
+									return // a message byte that bcd.Decode accepted, taken apart as its two decimal nibbles
+								}
 								if cr := intervalOf(pa, x, 0); !cr.Intersect(complement(IntervalSet{{'0', '9'}})).Empty() {
 									bad = "the character " + cut(x.String(), 40) + " enters the value without being restricted to '0'..'9' (accepts " + cr.Intersect(complement(IntervalSet{{'0', '9'}})).String() + ")"
 								}
@@ -319,6 +322,61 @@ func ruleK10All(r *Report, p *Program) {
 			}
 		}
 	}
+}
+
+// packedDigits: comp is computed from the message byte x alone, x lies inside a field that bcd.Decode accepted
+// on this path (both nibbles are decimal: B2), and comp is the number its two nibbles spell: 10*hi+lo for
+// every accepted byte value.
+func packedDigits(pa Path, comp, x *Term) bool {
+	if !isByteSlice(x.Args[0].Typ) {
+		return false
+	}
+	ix, ok := x.Args[1].Int64()
+	if !ok {
+		return false
+	}
+	covered := false
+	for _, e := range pa.Events {
+		if e.Kind != "call" || e.Name != "bcd.Decode" || len(e.Args) != 1 || e.Result == nil {
+			continue
+		}
+		a := e.Args[0]
+		if a.Op != "slice" || len(a.Args) < 3 || a.Args[0] == nil || a.Args[0].String() != x.Args[0].String() || a.Args[2] == nil {
+			continue
+		}
+		lo := int64(0)
+		if a.Args[1] != nil {
+			if lo, ok = a.Args[1].Int64(); !ok {
+				continue
+			}
+		}
+		hi, ok := a.Args[2].Int64()
+		if !ok || ix < lo || ix >= hi {
+			continue
+		}
+		if isnil, has := pa.State.Bools["isnil("+e.Result.String()+"#1)"]; has && isnil {
+			covered = true
+		}
+	}
+	if !covered {
+		return false
+	}
+	ls := leavesOf(comp)
+	if len(ls) != 1 || ls[0].String() != x.String() {
+		return false
+	}
+	n := 0
+	for v := int64(0); v < 256; v++ {
+		if v>>4 > 9 || v&15 > 9 {
+			continue
+		}
+		got, ok := evalAt(comp, x.String(), v)
+		if !ok || got != 10*(v>>4)+(v&15) {
+			return false
+		}
+		n++
+	}
+	return n == 100
 }
 
 // W26: the card-format predicate reached from PutCard.
